@@ -133,3 +133,16 @@ def defcolumn_value(G, name="col", light=False):
     maybe = {"comment": (name + ".has_comment", G.str(name + ".comment", STRLIT, "'c'")),
              "collate": (name + ".has_collate", G.str(name + ".collate", NAME, "utf8"))}
     return G.record(d, maybe)
+
+
+_real_parser = None
+
+
+def parser_constant(attr):
+    """an attribute of a constructed parser that is constant after __init__ (compiled regular expressions):
+    read from a real DDLParser("") of the scratch copy, so the contract never restates it"""
+    global _real_parser
+    if _real_parser is None:
+        from simple_ddl_parser import DDLParser
+        _real_parser = DDLParser("")
+    return getattr(_real_parser, attr, None)
